@@ -5,8 +5,10 @@ package kafka
 import (
 	"encoding/binary"
 	"errors"
+	"fmt"
 	"io"
 	"net"
+	"strings"
 	"sync/atomic"
 	"time"
 )
@@ -39,7 +41,7 @@ type verifWireCoordinator struct {
 	tc   *timeoutCoordinator
 	srv  net.Conn
 	next map[int16]chan []byte // per api key (calls of different goroutines share the connection): body of the next response; nil = drop the connection
-	dead int32       // the connection was dropped: later calls are journalled as failed without being answered
+	dead int32                 // the connection was dropped: later calls are journalled as failed without being answered
 }
 
 func newVerifWireCoordinator(id int, h VerifCoordHandler, config *ConsumerGroupConfig) *verifWireCoordinator {
@@ -152,7 +154,7 @@ func (w *verifWireCoordinator) ask(c VerifCoordCall) VerifCoordReply {
 	return w.h(c)
 }
 
-func (w *verifWireCoordinator) send(key int16, r VerifCoordReply, body func(b *verifW, code int16)) {
+func (w *verifWireCoordinator) send(key int16, method string, r VerifCoordReply, body func(b *verifW, code int16) string) {
 	select { // a body queued for a request that never reached the peer (connection already dead) is stale
 	case <-w.next[key]:
 	default:
@@ -164,17 +166,19 @@ func (w *verifWireCoordinator) send(key int16, r VerifCoordReply, body func(b *v
 		return
 	}
 	b := &verifW{}
-	body(b, code)
+	desc := body(b, code)
+	w.h(VerifCoordCall{Conn: w.id, Method: "wirebody", Of: method, Body: append([]byte(nil), b.b...), Desc: desc})
 	w.next[key] <- b.b
 }
 
 func (w *verifWireCoordinator) findCoordinator(req findCoordinatorRequestV0) (findCoordinatorResponseV0, error) {
 	r := w.ask(VerifCoordCall{Conn: w.id, Method: "findCoordinator", GroupID: req.CoordinatorKey})
-	w.send(10, r, func(b *verifW, code int16) { // error_code node_id host port
+	w.send(10, "findCoordinator", r, func(b *verifW, code int16) string { // error_code node_id host port
 		b.i16(code)
 		b.i32(1)
 		b.str(r.Host)
 		b.i32(r.Port)
+		return fmt.Sprintf("%d,%s,%d", code, r.Host, r.Port)
 	})
 	res, err := w.tc.findCoordinator(req)
 	w.outcome("findCoordinator", err)
@@ -183,7 +187,7 @@ func (w *verifWireCoordinator) findCoordinator(req findCoordinatorRequestV0) (fi
 
 func (w *verifWireCoordinator) joinGroup(req joinGroupRequest) (joinGroupResponse, error) {
 	r := w.ask(verifJoinCall(w.id, req))
-	w.send(11, r, func(b *verifW, code int16) { // v1: error_code generation_id protocol leader member [member_id metadata]
+	w.send(11, "joinGroup", r, func(b *verifW, code int16) string { // v1: error_code generation_id protocol leader member [member_id metadata]
 		b.i16(code)
 		b.i32(r.GenerationID)
 		b.str(r.Protocol)
@@ -201,6 +205,11 @@ func (w *verifWireCoordinator) joinGroup(req joinGroupRequest) (joinGroupRespons
 			md.bytes(m.UserData)
 			b.bytes(md.b)
 		}
+		var ms []string
+		for _, m := range r.Members {
+			ms = append(ms, m.ID+"="+strings.Join(m.Topics, "+"))
+		}
+		return fmt.Sprintf("%d,%d,%s,%s,%s,%s", code, r.GenerationID, r.Protocol, r.LeaderID, r.MemberID, strings.Join(ms, "|"))
 	})
 	res, err := w.tc.joinGroup(req)
 	w.outcome("joinGroup", err)
@@ -209,24 +218,31 @@ func (w *verifWireCoordinator) joinGroup(req joinGroupRequest) (joinGroupRespons
 
 func (w *verifWireCoordinator) syncGroup(req syncGroupRequestV0) (syncGroupResponseV0, error) {
 	r := w.ask(verifSyncCall(w.id, req))
-	w.send(14, r, func(b *verifW, code int16) { // error_code assignment(bytes)
+	w.send(14, "syncGroup", r, func(b *verifW, code int16) string { // error_code assignment(bytes)
 		b.i16(code)
 		raw := r.RawAssign
+		desc := fmt.Sprintf("%d,R,%x", code, raw)
 		if raw == nil {
+			var ts []string
 			a := &verifW{} // consumer protocol assignment: version [topic [partition]] user_data
 			a.i16(1)
 			a.i32(int32(len(r.Assignments)))
 			for t, ps := range r.Assignments {
 				a.str(t)
 				a.i32(int32(len(ps)))
+				var pp []string
 				for _, p := range ps {
 					a.i32(p)
+					pp = append(pp, fmt.Sprint(p))
 				}
+				ts = append(ts, t+":"+strings.Join(pp, "+"))
 			}
 			a.bytes(nil)
 			raw = a.b
+			desc = fmt.Sprintf("%d,A,%s", code, strings.Join(ts, ";"))
 		}
 		b.bytes(raw)
+		return desc
 	})
 	res, err := w.tc.syncGroup(req)
 	w.outcome("syncGroup", err)
@@ -235,7 +251,7 @@ func (w *verifWireCoordinator) syncGroup(req syncGroupRequestV0) (syncGroupRespo
 
 func (w *verifWireCoordinator) leaveGroup(req leaveGroupRequestV0) (leaveGroupResponseV0, error) {
 	r := w.ask(VerifCoordCall{Conn: w.id, Method: "leaveGroup", GroupID: req.GroupID, MemberID: req.MemberID})
-	w.send(13, r, func(b *verifW, code int16) { b.i16(code) })
+	w.send(13, "leaveGroup", r, func(b *verifW, code int16) string { b.i16(code); return fmt.Sprint(code) })
 	res, err := w.tc.leaveGroup(req)
 	w.outcome("leaveGroup", err)
 	return res, err
@@ -243,7 +259,7 @@ func (w *verifWireCoordinator) leaveGroup(req leaveGroupRequestV0) (leaveGroupRe
 
 func (w *verifWireCoordinator) heartbeat(req heartbeatRequestV0) (heartbeatResponseV0, error) {
 	r := w.ask(VerifCoordCall{Conn: w.id, Method: "heartbeat", GroupID: req.GroupID, MemberID: req.MemberID, GenerationID: req.GenerationID})
-	w.send(12, r, func(b *verifW, code int16) { b.i16(code) })
+	w.send(12, "heartbeat", r, func(b *verifW, code int16) string { b.i16(code); return fmt.Sprint(code) })
 	res, err := w.tc.heartbeat(req)
 	w.outcome("heartbeat", err)
 	return res, err
@@ -251,7 +267,8 @@ func (w *verifWireCoordinator) heartbeat(req heartbeatRequestV0) (heartbeatRespo
 
 func (w *verifWireCoordinator) offsetFetch(req offsetFetchRequestV1) (offsetFetchResponseV1, error) {
 	r := w.ask(verifOffsetFetchCall(w.id, req))
-	w.send(9, r, func(b *verifW, code int16) { // [topic [partition offset metadata error_code]]
+	w.send(9, "offsetFetch", r, func(b *verifW, code int16) string { // [topic [partition offset metadata error_code]]
+		var ts []string
 		resp := verifGroupOffsetFetchResponse(r.Committed)
 		if code != 0 && len(resp.Responses) == 0 { // an error needs a partition entry to sit in
 			for _, t := range req.Topics {
@@ -276,18 +293,22 @@ func (w *verifWireCoordinator) offsetFetch(req offsetFetchRequestV1) (offsetFetc
 		for ti, t := range resp.Responses {
 			b.str(t.Topic)
 			b.i32(int32(len(t.PartitionResponses)))
+			var pp []string
 			for pi, p := range t.PartitionResponses {
 				b.i32(p.Partition)
 				b.i64(p.Offset)
 				b.str("")
 				last := ti == len(resp.Responses)-1 && pi == len(t.PartitionResponses)-1
+				c := int16(0)
 				if code != 0 && (!r.ErrLast || last) {
-					b.i16(code)
-				} else {
-					b.i16(0)
+					c = code
 				}
+				b.i16(c)
+				pp = append(pp, fmt.Sprintf("%d@%d=%d", p.Partition, p.Offset, c))
 			}
+			ts = append(ts, t.Topic+":"+strings.Join(pp, "+"))
 		}
+		return strings.Join(ts, ";")
 	})
 	res, err := w.tc.offsetFetch(req)
 	w.outcome("offsetFetch", err)
@@ -296,21 +317,26 @@ func (w *verifWireCoordinator) offsetFetch(req offsetFetchRequestV1) (offsetFetc
 
 func (w *verifWireCoordinator) offsetCommit(req offsetCommitRequestV2) (offsetCommitResponseV2, error) {
 	r := w.ask(verifOffsetCommitCall(w.id, req))
-	w.send(8, r, func(b *verifW, code int16) { // [topic [partition error_code]]
+	w.send(8, "offsetCommit", r, func(b *verifW, code int16) string { // [topic [partition error_code]]
 		b.i32(int32(len(req.Topics)))
+		var ts []string
 		for ti, t := range req.Topics {
 			b.str(t.Topic)
 			b.i32(int32(len(t.Partitions)))
+			var pp []string
 			for pi, p := range t.Partitions {
 				b.i32(p.Partition)
 				last := ti == len(req.Topics)-1 && pi == len(t.Partitions)-1
+				c := int16(0)
 				if code != 0 && (!r.ErrLast || last) {
-					b.i16(code)
-				} else {
-					b.i16(0)
+					c = code
 				}
+				b.i16(c)
+				pp = append(pp, fmt.Sprintf("%d=%d", p.Partition, c))
 			}
+			ts = append(ts, t.Topic+":"+strings.Join(pp, "+"))
 		}
+		return strings.Join(ts, ";")
 	})
 	res, err := w.tc.offsetCommit(req)
 	w.outcome("offsetCommit", err)
